@@ -855,6 +855,38 @@ fn special_section(scratch: &Scratch, thorough: bool, rep: &mut Rep) {
             }
         }
     }
+    // (h) the clang macro fallback sees what the user force-includes: macros that only the fallback can evaluate (a cast)
+    //     and whose value depends on a `-include`d configuration header must carry the configured value, like the macros
+    //     cexpr evaluates itself
+    {
+        let cfg = scratch.path("h_cfg.h");
+        std::fs::write(&cfg, "#define CFG_WIDTH 16\n").unwrap();
+        let text = "#ifndef CFG_WIDTH\n#define CFG_WIDTH 8\n#endif\n#define H_WIDTH CFG_WIDTH\n#define H_LIMIT (1 << CFG_WIDTH)\n#define H_MASK ((unsigned int)((1ull << CFG_WIDTH) - 1))\n#define H_MIN (-(long)(1ull << (CFG_WIDTH - 1)))\n#define H_BYTES ((int)sizeof(char[CFG_WIDTH]))\n";
+        let cfgs = cfg.to_string_lossy().into_owned();
+        for (tag, flags) in [("hfb", vec!["--no-layout-tests", "--clang-macro-fallback"]), ("hfbfit", vec!["--no-layout-tests", "--clang-macro-fallback", "--fit-macro-constant-types"])] {
+            let fbdir = scratch.path(&format!("{tag}_build"));
+            let _ = std::fs::create_dir_all(&fbdir);
+            let fbdirs = fbdir.to_string_lossy().into_owned();
+            let mut fl: Vec<&str> = flags.clone();
+            fl.extend(["--clang-macro-fallback-build-dir", fbdirs.as_str()]);
+            let out = generate_text(scratch, &format!("{tag}.h"), text, &fl, &["-include", cfgs.as_str()], false);
+            rep.inc("bindgen_runs"); rep.inc("special_cases");
+            let Some(b) = out.bindings else { push_cap(&mut rep.oracle_failures, J::obj(vec![("header", J::s(text)), ("what", J::s(format!("no bindings: {:?} {:?}", out.error, out.panic)))])); continue; };
+            let inv = match inventory(&b) { Ok(i) => i, Err(e) => { rep.machinery.push(e); continue; } };
+            // C values with `-include h_cfg.h`: CFG_WIDTH = 16
+            for (name, want) in [("H_WIDTH", "16"), ("H_LIMIT", "65536"), ("H_MASK", "65535"), ("H_MIN", "-32768"), ("H_BYTES", "16")] {
+                rep.inc("oracle_compared");
+                match inv.consts.iter().find(|c| c.name == name) {
+                    None => { rep.inc("oracle_agree"); } // not emitted: nothing wrong is said
+                    Some(c) => {
+                        let got: String = c.val.text().chars().filter(|ch| !ch.is_whitespace()).collect();
+                        if got == want { rep.inc("oracle_agree"); }
+                        else { push_cap(&mut rep.oracle_failures, J::obj(vec![("header", J::s(text)), ("options", J::s(format!("{} -- -include h_cfg.h (`#define CFG_WIDTH 16`)", flags.join(" ")))), ("bindgen_emits", J::s(format!("{name} = {got}"))), ("what", J::s("the fallback evaluated the macro without the force-included header")), ("c_value", J::s(want))])); }
+                    }
+                }
+            }
+        }
+    }
     // (d) enumerators of an enum nested in a class template (C++): the values are read from a cursor of the
     //     dependent context, which evaluates to 0
     {
